@@ -186,6 +186,7 @@ for _k, _t in ADDENDA.items():
     _i = max(_l.rfind(' Does not decide'), _l.rfind(' The merged value itself'))
     TEXTS[_k]['level'] = (_l[:_i] + ' ' + _t + _l[_i:]) if _i > 0 else (_l + ' ' + _t)
 ADDENDA_END = {
+    'C06': "SHP3: the index, size and key queries answer like the list model on every list of up to five elements / every arrangement of three keys on up to four members (first match, exact and case-folded), writing nothing - a bounded statement.",
     'C01': "OUT9: the decoded string fits the block allocated for it (the scan's escape count, the block size as a linear form over the scan's end and start, what every turn of the decoder writes against what it consumes, the UTF-16 arm over value sets, the terminator) - a count over the whole literal assembled from per-step facts.",
 }
 for _k, _t in ADDENDA_END.items():
